@@ -122,7 +122,7 @@ impl<K: KeyT> SetWorld<K> {
     pub fn shape(&self, si: usize) -> Shape {
         dump::shape(&hashbrown::verif::dump_set(self.set(si)))
     }
-    fn actual(&self, si: usize) -> Vec<(SE, bool)> {
+    pub(crate) fn actual(&self, si: usize) -> Vec<(SE, bool)> {
         hashbrown::verif::full_buckets_set(self.set(si)).into_iter().map(|(_, (k, _))| ((k.id(), k.serial()), k.intact())).collect()
     }
     fn fctx(&self, si: usize, op: &Op) -> SFault {
@@ -427,6 +427,8 @@ impl<K: KeyT> SetWorld<K> {
             Kd::SetOp => self.op_setop(si, ti, op)?,
             Kd::SetOpAssign => self.op_setop_assign(si, ti, op)?,
             Kd::FillNoAlloc => self.op_fill_no_alloc(si, op)?,
+            Kd::Par => self.op_par(si, ti, op)?,
+            Kd::SerdeRoundTrip | Kd::SerdeStream => self.op_serde(si, op)?,
             other => vio!(self, "harness/bad-op", "operation {:?} is not a set operation", other),
         }
         self.touch(si, &before)
